@@ -1,5 +1,5 @@
 #!/usr/bin/env python3
-"""tools/triage_c05.py <log.json | sweep.json:<index>> [--key 'substring of a diff message'] [--no-min]
+"""tools/triage_c05.py <log.json | sweep.json:<index>> [--key 'substring of a diff message'] [--no-min] [--out file]
 Replays a recorded C05 history log ([tag, actions, ok] entries, obtained with VERIF_FULL_LOG=1) on a
 fresh engine, compares the live snapshot with a from-scratch recalculation (vlib.reload) and
 delta-minimises the log (whole entries, then single actions) under the predicate
@@ -72,7 +72,8 @@ def main():
           cur = cand
         else:
           kk += 1
-  json.dump(cur, open('/tmp/triage05-min.json', 'w'), indent=1)
+  out = sys.argv[sys.argv.index('--out') + 1] if '--out' in sys.argv else '/tmp/triage05-min.json'
+  json.dump(cur, open(out, 'w'), indent=1)
   for e in cur:
     print(e[0], json.dumps(e[1])[:1500])
   d, S, F = run(cur)
